@@ -592,6 +592,8 @@ class Randomizer(RandIF):
                     if len(fm.field_l) > fm.presolve_len:
                         del fm.field_l[fm.presolve_len:]
                     fm._set_size(len(fm.field_l))
+                # Only valid for the call that recorded it
+                fm.presolve_len = None
         elif hasattr(fm, "dispose"):
             fm.dispose()
 
